@@ -10,7 +10,9 @@
 (*                              key (type name, limbs or bytes), and       *)
 (*                              a.h = limbs of the 64-bit hash (of the key *)
 (*                              value itself on the modulo route); r the   *)
-(*                              index the real code returned               *)
+(*                              index the real code returned; inmut: the   *)
+(*                              []byte key the harness handed over still   *)
+(*                              holds what it held (TRUE for other keys)   *)
 (*   call  {a, r}               one sequential call on a container (no     *)
 (*                              call may be open); r = [ok, v]             *)
 (*   inv {t, a} / res {t, r}    overlapping calls of goroutine t on one    *)
@@ -19,6 +21,9 @@
 (*                              effect is an internal step (Lin) somewhere *)
 (*                              between the two, TLC searches for a        *)
 (*                              linearization against the plain map        *)
+(*   panic / stuck / crash      a constructor panicked, a call never       *)
+(*                              returned, the process died inside neptune: *)
+(*                              no action explains them (CASE OTHER)       *)
 (* 64-bit values are 4 limbs of 16 bits (LimbBase = 65536).                *)
 EXTENDS Shard, Json, IOUtils
 
@@ -40,7 +45,7 @@ TReset(e) ==
   /\ pend' = [t \in 1..e.threads |-> Idle]
 
 (* the index the real router returned must satisfy the contract *)
-TIdx(e) == RouteStep(e.a, e.r) /\ UNCHANGED pend
+TIdx(e) == RouteStep(e.a, e.r) /\ e.inmut = TRUE /\ UNCHANGED pend
 
 (* the real (sharded) container must answer as the unsharded map *)
 TCall(e) ==
